@@ -1,17 +1,24 @@
+// driver: handles.hpp, guarded.hpp, guarded_opt.hpp for M in {mutex, timed_mutex}
 #include "vf_driver.hpp"
 #include "gmlc/libguarded/guarded.hpp"
+#include "gmlc/libguarded/guarded_opt.hpp"
 #include <chrono>
 using namespace gmlc::libguarded;
-template<class M> void use_guarded(guarded<vf::payload,M>& g, const vf::payload& p, vf::payload& q){
-    { auto h=g.lock(); h.unlock(); auto h2=std::move(h); h=std::move(h2); (void)*h; (void)h.operator->(); (void)bool(h);}
-    { auto h=g.try_lock(); }
-    g.store(p); g.store(std::move(q)); g=p; g=std::move(q);
+template<class H> void use_handle(H& h, H& other){
+    h.unlock(); H h2(std::move(h)); h = std::move(other); (void)*h; (void)h.operator->(); (void)bool(h);
+}
+template<class G> void use_guarded(G& g, const vf::payload& p, vf::payload& q){
+    { auto h = g.lock(); auto h2 = g.try_lock(); use_handle(h, h2); }
+    g.store(p); g.store(std::move(q)); g = p; g = std::move(q);
     (void)g.load();
 }
-template<class M> void use_guarded_timed(guarded<vf::payload,M>& g){
-    { auto h=g.try_lock_for(std::chrono::milliseconds(1)); }
-    { auto h=g.try_lock_until(std::chrono::steady_clock::now()); }
+template<class G> void use_timed(G& g){
+    { auto h = g.try_lock_for(std::chrono::milliseconds(1)); }
+    { auto h = g.try_lock_until(std::chrono::steady_clock::now()); }
 }
-void drv(guarded<vf::payload,std::mutex>& a, guarded<vf::payload,std::timed_mutex>& b, const vf::payload& p, vf::payload& q){
-    use_guarded(a,p,q); use_guarded(b,p,q); use_guarded_timed(b);
+void drv(guarded<vf::payload, std::mutex>& a, guarded<vf::payload, std::timed_mutex>& b,
+         guarded_opt<vf::payload, std::mutex>& c, guarded_opt<vf::payload, std::timed_mutex>& d,
+         const vf::payload& p, vf::payload& q){
+    use_guarded(a, p, q); use_guarded(b, p, q); use_timed(b);
+    use_guarded(c, p, q); use_guarded(d, p, q); use_timed(d);
 }
